@@ -17,6 +17,26 @@ import (
 // `cond` taken as true (an error tested in place, `if ctx.Err() != nil`): every path from its true branch ends in a
 // return of some non-nil error.
 func errReaches(info *types.Info, body *ast.BlockStmt, results *ast.FieldList, from ast.Node, eobj types.Object, cond ast.Expr) (bool, string) {
+	return errReaches2(info, body, results, from, eobj, cond, true)
+}
+
+// errReachesBranch: every path from the branch of `cond` taken when it is true (whenTrue) / false ends in a return of some
+// non-nil error.
+func errReachesBranch(info *types.Info, body *ast.BlockStmt, results *ast.FieldList, cond ast.Expr, whenTrue bool) (bool, string) {
+	return errReaches2(info, body, results, nil, nil, cond, whenTrue)
+}
+
+// errReachesStrict: from the true branch of cond (a test that eobj is non-nil), every path ends in a return whose last
+// result is certainly a non-nil error: it mentions eobj, or is a call of errors.New / fmt.Errorf.
+func errReachesStrict(info *types.Info, body *ast.BlockStmt, results *ast.FieldList, cond ast.Expr, eobj types.Object) (bool, string) {
+	strictObj = eobj
+	defer func() { strictObj = nil }()
+	return errReaches2(info, body, results, nil, nil, cond, true)
+}
+
+var strictObj types.Object
+
+func errReaches2(info *types.Info, body *ast.BlockStmt, results *ast.FieldList, from ast.Node, eobj types.Object, cond ast.Expr, whenTrue bool) (bool, string) {
 	g := cfg.New(body, func(*ast.CallExpr) bool { return true })
 	named := false
 	if results != nil && eobj != nil {
@@ -67,6 +87,46 @@ func errReaches(info *types.Info, body *ast.BlockStmt, results *ast.FieldList, f
 		}
 		return v, true
 	}
+	// decide: a condition built from such tests with !, && and || (go/cfg keeps the condition of a for statement in one
+	// piece), as far as the assumption decides it
+	leafTest := nilTest
+	var decide func(e ast.Expr) (val bool, known bool)
+	decide = func(e ast.Expr) (bool, bool) {
+		e = ast.Unparen(e)
+		if v, ok := leafTest(e); ok {
+			return v, true
+		}
+		switch x := e.(type) {
+		case *ast.UnaryExpr:
+			if x.Op == token.NOT {
+				if v, ok := decide(x.X); ok {
+					return !v, true
+				}
+			}
+		case *ast.BinaryExpr:
+			if x.Op == token.LAND || x.Op == token.LOR {
+				a, okA := decide(x.X)
+				b, okB := decide(x.Y)
+				if x.Op == token.LAND {
+					if (okA && !a) || (okB && !b) {
+						return false, true
+					}
+					if okA && okB {
+						return true, true
+					}
+				} else {
+					if (okA && a) || (okB && b) {
+						return true, true
+					}
+					if okA && okB {
+						return false, true
+					}
+				}
+			}
+		}
+		return false, false
+	}
+	nilTest = decide
 	type state struct {
 		b *cfg.Block
 		i int
@@ -78,7 +138,11 @@ func errReaches(info *types.Info, body *ast.BlockStmt, results *ast.FieldList, f
 				start = &state{b, i + 1}
 			}
 			if cond != nil && start == nil && (n == ast.Node(cond) || contains(n, cond)) && i == len(b.Nodes)-1 && len(b.Succs) == 2 {
-				start = &state{b.Succs[0], 0}
+				if whenTrue {
+					start = &state{b.Succs[0], 0}
+				} else {
+					start = &state{b.Succs[1], 0}
+				}
 			}
 		}
 	}
@@ -118,6 +182,18 @@ func errReaches(info *types.Info, body *ast.BlockStmt, results *ast.FieldList, f
 				if isNilExpr(info, last) || !(isErrorT(info.TypeOf(last)) || types.Implements(info.TypeOf(last), errorIface())) {
 					why = "the branch returns without an error"
 					return false
+				}
+				if strictObj != nil && !mentions(info, last, strictObj) {
+					certain := false
+					if cl, ok := ast.Unparen(last).(*ast.CallExpr); ok {
+						if f := calleeFunc(info, cl); f != nil && f.Pkg() != nil && ((f.Pkg().Path() == "errors" && f.Name() == "New") || (f.Pkg().Path() == "fmt" && f.Name() == "Errorf")) {
+							certain = true
+						}
+					}
+					if !certain {
+						why = "a return hands out a value that is neither the error in hand nor a newly built one"
+						return false
+					}
 				}
 				return true
 			case *ast.AssignStmt:
